@@ -88,12 +88,18 @@ defvjp(pinv, grad_pinv)
 def grad_solve(argnum, ans, a, b):
     # b (and ans, g) may carry more leading (batch) dimensions than a, and vice versa
     updim = lambda x: x if x.ndim >= a.ndim else x[..., None]
+    if anp.ndim(b) == 1:
+        # an exactly 1-D b is one vector broadcast over the stack of matrices: its cotangent has shape (..., n) and must be
+        # solved as a stack of columns, not read as an (n, k) matrix
+        solve_t = lambda g: solve(T(a), g[..., None])[..., 0]
+    else:
+        solve_t = lambda g: solve(T(a), g)
     if argnum == 0:
         a_meta = anp.metadata(a)
-        return lambda g: unbroadcast(-_dot(updim(solve(T(a), g)), T(updim(ans))), a_meta)
+        return lambda g: unbroadcast(-_dot(updim(solve_t(g)), T(updim(ans))), a_meta)
     else:
         b_meta = anp.metadata(b)
-        return lambda g: unbroadcast(solve(T(a), g), b_meta)
+        return lambda g: unbroadcast(solve_t(g), b_meta)
 
 
 defvjp(solve, partial(grad_solve, 0), partial(grad_solve, 1))
